@@ -43,11 +43,14 @@ ParentOk(ps) == \A i \in 0..(N - 1) :
   /\ (Level(ps, i) = 0) = IsNone(Parent(ps, i))
   /\ IsSome(Parent(ps, i)) => Parent(ps, i)[1] < i
 VisibleOk(ps) == \A i \in 0..(N - 1) : VisibleRec(ps, i) = VisibleDecl(ps, i)
+\* the one-pass vector forms used by trace validation are the declarative notions
+VecOk(ps) == /\ ParentVec(ps) = [i \in 1..N |-> Parent(ps, i - 1)]
+             /\ VisibleVec(ps) = [i \in 1..N |-> VisibleDecl(ps, i - 1)]
 \* hidden layers (directly or through an ancestor) contribute nothing to the frame image
 HiddenOk(ps) == N <= ImageLayers =>
   LET img == FrameImage(ps, 0) IN
   \A i \in 0..(N - 1) : (img[i + 1] # Transparent) = (~IsGroup(i + 1) /\ VisibleDecl(ps, i))
-ForestInv == LET ps == PS IN WellFormed(ps) /\ ParentOk(ps) /\ VisibleOk(ps) /\ HiddenOk(ps)
+ForestInv == LET ps == PS IN WellFormed(ps) /\ ParentOk(ps) /\ VisibleOk(ps) /\ VecOk(ps) /\ HiddenOk(ps)
 
 \* export: one compact descriptor per reachable state
 Export == PrintT(<<"PROG", ToJson([levels |-> levels, vis |-> vis])>>)
